@@ -16,7 +16,8 @@
                  `finder` = the generated program: a snapshot of `tree`, taken eagerly
                  (compile flag) or at the first lookup; only an ACCEPTED add discards it.
      switches    Rollback   = a rejected add removes every node it created (FALSE: only the
-                              path-converter node itself is removed -- nodes created above it stay)
+                              path-converter node itself is removed -- nodes created above it stay;
+                              the shape of the code before defect F1 of DESIGN section 6 was repaired)
                  ResetOnAdd = an accepted add discards the generated program
    With both switches TRUE the invariants below hold; each FALSE setting breaks one. *)
 EXTENDS SegMatch, TLC
